@@ -13,6 +13,9 @@ bytes: lower-case hex (`-` = empty).
   `C41 xenc <bytes>`   → bytes of `xtext_encode(bytes)[0]`
   `C41 xdec <bytes>`   → text of `xtext_decode(bytes)[0]` or `!raised TypeError|UnicodeDecodeError`
   `C41 xrt <bytes>`    → `enc=<bytes> dec=<text | !raised …>`
+  `C41 u7seq <text>;<text>;…` → the `u7rt` answers joined by `;` — a HISTORY of calls in one interpreter: the model is a
+                         pure function, so each answer depends on its own argument only (`seqU7`)
+  `C41 xseq <bytes>;<bytes>;…` → the `xrt` answers joined by `;` (`seqX`)
 -/
 namespace Twisted.Drv.C41
 open Twisted.Mail
@@ -58,6 +61,17 @@ def showX : Except Xtext.Err (List Nat) → String
   | .error .typeError => "!raised TypeError"
   | .error .unicodeDecode => "!raised UnicodeDecodeError"
 
+def rtU7 (t : List Nat) : String :=
+  let e := Utf7.encode t; "enc=" ++ encBytes e ++ " dec=" ++ showU7 (Utf7.decode e)
+
+def rtX (b : List UInt8) : String :=
+  let e := Xtext.encode b; "enc=" ++ encBytes e ++ " dec=" ++ showX (Xtext.decode e)
+
+/-- a history of round trips: one answer per call, in order -/
+def seqU7 (ts : List (List Nat)) : List String := ts.map rtU7
+
+def seqX (bs : List (List UInt8)) : List String := bs.map rtX
+
 def handle (args : List String) : String :=
   match args with
   | ["u7enc", t] => match decText t with
@@ -67,7 +81,10 @@ def handle (args : List String) : String :=
     | some b => showU7 (Utf7.decode b)
     | none => "bad-op"
   | ["u7rt", t] => match decText t with
-    | some t => let e := Utf7.encode t; "enc=" ++ encBytes e ++ " dec=" ++ showU7 (Utf7.decode e)
+    | some t => rtU7 t
+    | none => "bad-op"
+  | ["u7seq", ts] => match (ts.splitOn ";").mapM decText with
+    | some ts => ";".intercalate (seqU7 ts)
     | none => "bad-op"
   | ["pyenc", t] => match decText t with
     | some t => encBytes (Utf7.pyEnc t)
@@ -88,7 +105,10 @@ def handle (args : List String) : String :=
     | some b => showX (Xtext.decode b)
     | none => "bad-op"
   | ["xrt", b] => match decBytes b with
-    | some b => let e := Xtext.encode b; "enc=" ++ encBytes e ++ " dec=" ++ showX (Xtext.decode e)
+    | some b => rtX b
+    | none => "bad-op"
+  | ["xseq", bs] => match (bs.splitOn ";").mapM decBytes with
+    | some bs => ";".intercalate (seqX bs)
     | none => "bad-op"
   | _ => "bad-op"
 
